@@ -90,3 +90,16 @@ def restore_knobs():
                 pass
         else:
             setattr(obj, attr, old)
+
+
+def gen_stalls(rng, funcs, p=0.3):
+    """Swarm option: thread-stall faults for this run ({} most of the time).  Either any pre-emption point may turn into a stall, or one
+    (sometimes two) of the property's anchor functions is singled out and threads running it are descheduled at some of its lines."""
+    if rng.random() >= p:
+        return {}
+    if rng.random() < 0.5:
+        return {'stall': [rng.choice([0.3, 0.6]), rng.choice([0.02, 0.1, 0.4])], 'line_p': rng.choice([0.005, 0.02]), 'points': rng.choice([4, 8])}
+    f = rng.choice(funcs)
+    if len(funcs) > 1 and rng.random() < 0.3:
+        f = sorted(rng.sample(funcs, 2))
+    return {'focus_stall': [f, rng.choice([0.05, 0.15, 0.3]), rng.choice([0.01, 0.05, 0.2])]}
